@@ -155,7 +155,7 @@ func (x *c09) fault(m *mcontract, f Fault, op C09Op) error {
 	var commit func() error // applies the expected effect to the model and checks the committed revision
 	var proofErr error
 	size := len(m.Roots)
-	if f.Kind == "write" && f.Sig != "" {
+	if f.Kind == "write" && f.Sig != "" && f.Sig != "unfunded" {
 		return nil
 	}
 	if (f.Sig == "bad-input-sig" || f.Sig == "double-spend") && !fundsTxn(f.Kind) {
@@ -290,12 +290,28 @@ func (x *c09) fault(m *mcontract, f Fault, op C09Op) error {
 		// every upload of a case carries different bytes (and a different length)
 		x.writeSeq++
 		seq := x.writeSeq
-		data := make([]byte, []int{4, 1, 64, 7, 1024}[seq%5]*proto4.LeafSize)
+		data := make([]byte, []int{7, 1024, 4, 64, 1}[seq%5]*proto4.LeafSize) // the first one is the longest
+		if f.Sig == "unfunded" {
+			// a long upload paid from an account that cannot afford it: the host
+			// reads the whole payload and then refuses
+			token = x.R.Token(x.AcctKeys[1])
+			data = make([]byte, 2048*proto4.LeafSize)
+			if x.Bal[1].Cmp(x.Prices.RPCWriteSectorCost(uint64(len(data))).RenterCost()) >= 0 {
+				x.cs.Class("fault-skipped-account-can-pay")
+				return nil
+			}
+		}
 		for i := range data {
 			data[i] = byte(i*7 + seq*13 + 1)
 		}
 		r := x.R.Write(x.Prices, token, data, uint64(len(data)), script)
 		res = r.Result
+		if f.Sig == "unfunded" {
+			x.cs.Class("upload-refused-insufficient-funds")
+			if res.Done {
+				return fmt.Errorf("%s: the host stored an upload the account cannot pay for", what)
+			}
+		}
 		commit = func() error {
 			x.Bal[0] = x.Bal[0].Sub(x.Prices.RPCWriteSectorCost(uint64(len(data))).RenterCost())
 			// the host had every byte: the sector is stored under the root of
@@ -628,6 +644,23 @@ func TestC09Faults(t *testing.T) {
 	for k := range paidFailKinds {
 		for _, size := range []int{0, 2} {
 			cases = append(cases, C09Case{Sizes: []int{size}, Ops: []C09Op{{Op: "paidfail", Len: k, Off: 5}, {Op: "paidfail", Len: k, Off: 70000}, {Op: "append", Roots: []int{9}}, {Op: "roots", Len: -1}}, ReadAll: true})
+		}
+	}
+	// refused uploads (unfunded account; payload cut short) BEFORE shorter paid
+	// ones: a paid upload must be stored as exactly the bytes sent
+	for _, first := range []Fault{{Kind: "write", Sig: "unfunded"}, {Kind: "write", AbortAt: 2, Mode: rhpx.ModeTrunc}, {Kind: "write", AbortAt: 2, Mode: rhpx.ModeClose}} {
+		for _, later := range []int{1, 3, 6} {
+			f := first
+			ops := []C09Op{{Op: "fault", Fault: &f}}
+			if later > 1 {
+				g := first
+				ops = append(ops, C09Op{Op: "fault", Fault: &g})
+			}
+			for i := 0; i < later; i++ {
+				ops = append(ops, C09Op{Op: "write"})
+			}
+			ops = append(ops, C09Op{Op: "append", Roots: []int{1000, 1001, 1002}}, C09Op{Op: "roots", Len: -1})
+			cases = append(cases, C09Case{Sizes: []int{1}, Ops: ops, ReadAll: true})
 		}
 	}
 	// uploads: every abort point of RPCWriteSector, then further uploads (other
